@@ -153,6 +153,28 @@ class SC(IntegratorStep):
         d_tr[d_idx] = (d_tr[d_idx]*31 + 22) % 1000003
 
 
+class SE(IntegratorStep):
+    """Moves particles by more than a neighbour cell inside one stage, so
+    that the binning of the last neighbour update is visibly stale: an
+    evaluation with update_nnps=False must see the stale binning, one with
+    update_nnps=True the fresh one."""
+    def initialize(self, d_idx, d_tr):
+        d_tr[d_idx] = (d_tr[d_idx]*31 + 51) % 1000003
+
+    def stage1(self, d_idx, d_x, d_y, d_tr, d_q, t, dt):
+        if d_idx % 2 == 0:
+            d_x[d_idx] += 1.25
+        else:
+            d_y[d_idx] -= 1.25
+        d_q[d_idx] = d_q[d_idx]*0.5 + t + 3.0*dt
+        d_tr[d_idx] = (d_tr[d_idx]*31 + 52) % 1000003
+
+    def stage2(self, d_idx, d_x, d_y, d_u, d_v, d_tr, dt):
+        d_x[d_idx] += dt*d_u[d_idx]
+        d_y[d_idx] += dt*d_v[d_idx]
+        d_tr[d_idx] = (d_tr[d_idx]*31 + 53) % 1000003
+
+
 # --------------------------------------------------------------- integrators
 class I1(Integrator):
     def one_timestep(self, t, dt):
